@@ -172,6 +172,7 @@ type shardResult struct {
 	last    string
 	log     string
 	variant string
+	early   []hx.Violation // violations journalled by a child that did not finish
 }
 
 func runShards(prop string, tier string, seed int64, v variant, bin string, nshards int, timeout time.Duration, memKB int64) []shardResult {
@@ -203,6 +204,15 @@ func runShards(prop string, tier string, seed int64, v variant, bin string, nsha
 			}
 			if r.sum == nil {
 				r.crashed = true
+				// what the child had already reported when it died
+				if b, e := os.ReadFile(base + ".viol"); e == nil {
+					for _, ln := range bytes.Split(b, []byte{'\n'}) {
+						var v hx.Violation
+						if len(ln) > 0 && json.Unmarshal(ln, &v) == nil {
+							r.early = append(r.early, v)
+						}
+					}
+				}
 				if ee, ok := err.(*exec.ExitError); ok && (ee.ExitCode() == 124 || ee.ExitCode() == 137) {
 					r.timeout = true
 				}
@@ -338,6 +348,8 @@ func runCheck(prop string, cfg *propCfg, tier string, seed int64) int {
 	}
 	for _, r := range all {
 		if r.sum == nil {
+			viol = append(viol, r.early...)
+			m.NViol += int64(len(r.early))
 			what := fmt.Sprintf("variant %s: child died; last case: %q; log tail: %s", r.variant, r.last, tail(r.log, 1500))
 			if r.timeout {
 				inconcl = append(inconcl, "watchdog fired: "+what)
